@@ -38,6 +38,11 @@ pub enum ByteEdit {
     Extend { n: u8, val: u8 },
     /// Cut to exactly this length (if shorter than the input).
     CutTo { len: u16 },
+    /// Fill `words` 16-bit units starting at byte `2*start` with one value
+    /// (several neighbouring fields all ones / all zeroes at once).
+    Fill { start: u8, units: u8, val: u8 },
+    /// The same value in the same byte lane of two different 32-bit words.
+    Pair { pos: u8, gap: u8, val: u8 },
 }
 
 pub fn byte_edit() -> impl Strategy<Value = ByteEdit> {
@@ -49,6 +54,8 @@ pub fn byte_edit() -> impl Strategy<Value = ByteEdit> {
         1 => prop_oneof![Just(15u16), Just(16), Just(17), Just(35), Just(36), Just(37), Just(27), Just(28), Just(29),
                          Just(55), Just(56), Just(57), Just(79), Just(80), Just(81), 0u16..300]
             .prop_map(|len| ByteEdit::CutTo { len }),
+        3 => (0u8..48, prop_oneof![1 => Just(1u8), 2 => Just(2u8), 1 => Just(3u8), 3 => Just(4u8), 1 => Just(6u8), 1 => Just(8u8)], prop_oneof![3 => Just(0xFFu8), 1 => Just(0u8), 1 => any::<u8>()]).prop_map(|(start, units, val)| ByteEdit::Fill { start, units, val }),
+        2 => (0u8..96, 1u8..=6, prop_oneof![1 => Just(1u8), 1 => Just(0xFFu8), 2 => any::<u8>()]).prop_map(|(pos, gap, val)| ByteEdit::Pair { pos, gap, val }),
     ]
 }
 
@@ -73,6 +80,19 @@ pub fn apply_byte_edits(b: &mut Vec<u8>, edits: &[ByteEdit]) {
             }
             ByteEdit::Extend { n, val } => b.extend(std::iter::repeat(val).take(n as usize)),
             ByteEdit::CutTo { len } => b.truncate(len as usize),
+            ByteEdit::Fill { start, units, val } => {
+                let a = 2 * start as usize;
+                for x in b.iter_mut().skip(a).take(2 * units as usize) {
+                    *x = val;
+                }
+            }
+            ByteEdit::Pair { pos, gap, val } => {
+                for i in [pos as usize, pos as usize + 4 * gap as usize] {
+                    if let Some(x) = b.get_mut(i) {
+                        *x = val;
+                    }
+                }
+            }
         }
     }
 }
@@ -710,6 +730,10 @@ pub enum TrgMut {
     /// counters: 0 output, 1 scaledown, 2 drift, 3 input; value = other counter + d
     CounterRel { which: u8, other: u8, d: i8 },
     LenDelta(i32),
+    /// the same bits flipped in two different words
+    SameFlip { a: u8, b: u8, bit: u8, width: u8 },
+    /// one word repeated in another place
+    CopyWord { from: u8, to: u8 },
 }
 pub fn trg_mut() -> impl Strategy<Value = TrgMut> {
     prop_oneof![
@@ -717,6 +741,8 @@ pub fn trg_mut() -> impl Strategy<Value = TrgMut> {
         3 => (0u8..20, boundary_u32()).prop_map(|(word, val)| TrgMut::SetWord { word, val }),
         5 => (0u8..4, 0u8..4, -1i8..=1).prop_map(|(which, other, d)| TrgMut::CounterRel { which, other, d }),
         2 => prop_oneof![Just(-80i32), Just(-1), Just(1), Just(4), -80i32..120].prop_map(TrgMut::LenDelta),
+        3 => (0u8..20, 0u8..20, 0u8..32, prop_oneof![Just(1u8), Just(8), 1u8..=32]).prop_map(|(a, b, bit, width)| TrgMut::SameFlip { a, b, bit, width }),
+        1 => (0u8..20, 0u8..20).prop_map(|(from, to)| TrgMut::CopyWord { from, to }),
     ]
 }
 pub fn counter_word(i: u8) -> usize {
@@ -736,6 +762,14 @@ pub fn apply_trg_mut(m: &mut TrgModel, mu: &TrgMut) {
             }
         }
         TrgMut::LenDelta(d) => m.len_delta = d,
+        TrgMut::SameFlip { a, b, bit, width } => {
+            let mask = (if width >= 32 { u32::MAX } else { (1u32 << width) - 1 }) << (bit % 32);
+            m.words[a as usize % 20] ^= mask;
+            if a % 20 != b % 20 {
+                m.words[b as usize % 20] ^= mask;
+            }
+        }
+        TrgMut::CopyWord { from, to } => m.words[to as usize % 20] = m.words[from as usize % 20],
     }
 }
 #[derive(Clone, Debug, Serialize, Deserialize)]
@@ -996,7 +1030,7 @@ impl MsgCase {
 
 /// A valid packet near the largest possible size: 70..=79 channels of 400..=511 samples.
 pub fn pwb_big() -> impl Strategy<Value = PwbCase> {
-    (pwb_valid(), prop_oneof![2 => Just(79u32), 1 => 70u32..=79], prop_oneof![3 => Just(511u16), 1 => Just(510u16), 1 => 400u16..=511], any::<u64>()).prop_map(|(mut m, k, requested, seed)| {
+    (pwb_valid(), prop_oneof![2 => Just(79u32), 1 => 70u32..=79, 1 => 60u32..=79], prop_oneof![3 => Just(511u16), 1 => Just(510u16), 2 => 400u16..=511], any::<u64>()).prop_map(|(mut m, k, requested, seed)| {
         let sent: u128 = (1u128 << k) - 1;
         m.sent_mask = sent;
         m.requested = requested;
